@@ -211,9 +211,38 @@ def run_given(ctx, label, strategy, body, max_examples, shrink=True):
     @hyp_settings(max_examples, shrink=shrink)
     @given(strategy)
     def _t(case):
-        body(case)
+        try:
+            body(case)
+        except (Violation, HarnessError):
+            raise
+        except Exception as e:  # noqa: BLE001
+            where = raised_inside_quantem(e)
+            if where is None:
+                raise
+            # an observation / operation outside a ctx.sut block made the code under test raise
+            raise Violation("unexpected %s raised inside quantem (%s): %s" % (type(e).__name__, where, str(e)[:300]), case if isinstance(case, (dict, list)) else {"case": repr(case)[:2000]})
 
     _run_hyp(_t)
+
+
+def raised_inside_quantem(e):
+    """'file:line' of the innermost first-party frame if that frame is quantem code (the exception was raised by the
+    code under test or by a library call it made), None if it is harness code or a Hypothesis control exception."""
+    try:
+        import hypothesis.errors as he
+
+        if isinstance(e, he.HypothesisException):
+            return None
+    except ImportError:
+        pass
+    for fr in reversed(traceback.extract_tb(e.__traceback__)):
+        fn = fr.filename
+        if "site-packages" in fn or "/lib/python" in fn or fn.startswith("<"):
+            continue
+        if "/quantem/" in fn and "/verif/" not in fn:
+            return "%s:%d" % (fn.split("quantem/")[-1], fr.lineno)
+        return None
+    return None
 
 
 def run_machine(ctx, label, machine_cls, max_examples, steps, shrink=True):
